@@ -42,7 +42,7 @@ theorem counter_value (d : Decl V) (hk : d.kind = .counter) (acts : List (Action
       by_cases hr : counterRejects x = true
       · simp [okAct, callMethod, hr] at hoka
       · simp [upd, callMethod, hr, sumOf_snoc, hR]
-    | reset => simp [upd, callMethod, sumOf]
+    | reset => simp [upd, callMethod, sumOf, resetStoresFloat]   -- needs `Counter.reset` to store the float zero
     | _ => simpa [upd, callMethod] using hR
 
 /-! ### gauge -/
